@@ -189,6 +189,36 @@ def laws_on_code(chk, rng, quick):
                         chk.violation({"kind": "brinkmann_law", "dim": D}, f"BrinkmannBoundaryForcing D={D} {real_t.__name__} reset={reset}: {er}")
 
 
+def apalache_induction(chk):
+    """unbounded velocities / lambda dt / histories: the laws are an inductive invariant (spec/BrinkmannInd.tla, Apalache)."""
+    import os
+    import shutil
+    import subprocess
+    import tempfile
+
+    d = tempfile.mkdtemp(prefix="apa_")
+    try:
+        shutil.copy(os.path.join(tlc.SPEC_DIR, "BrinkmannInd.tla"), d)
+        runs = [("init implies invariant", ["--init=Init", "--inv=IndInv", "--length=0"], True),
+                ("inductive step", ["--init=IndInit", "--inv=IndInv", "--length=1"], True),
+                ("control: hidden state is not inductive", ["--init=IndInit", "--next=NextBad", "--inv=IndInv", "--length=1"], False)]
+        for name, args, want_ok in runs:
+            p = subprocess.run(["apalache-mc", "check", *args, f"--out-dir={d}/out", "BrinkmannInd.tla"], cwd=d, capture_output=True, text=True, timeout=900)
+            ok = "EXITCODE: OK" in p.stdout
+            viol = "Found" in p.stdout and "error" in p.stdout
+            chk.tlc_runs.append({"name": "apalache " + name, "ok": ok, "violation": viol})
+            if want_ok and not ok:
+                if viol:
+                    chk.violation({"kind": "model", "run": "apalache " + name}, f"Apalache refutes the inductive invariant of the Brinkmann law ({name})", {"tail": p.stdout[-600:]})
+                else:
+                    raise core.MachineryError(f"apalache {name}: {p.stdout[-600:]}")
+            if not want_ok and ok:
+                raise core.MachineryError("apalache negative control accepted: the inductive check is vacuous")
+        chk.extra["apalache_obligations_discharged"] = len(runs)
+    finally:
+        shutil.rmtree(d, ignore_errors=True)
+
+
 def run(chk: core.Check):
     shim.install()
     shim.set_backend("compile")
@@ -235,4 +265,5 @@ def run(chk: core.Check):
     if nbeh == 0:
         raise core.MachineryError("no Brinkmann behaviour was replayed")
     laws_on_code(chk, rng, quick)
+    apalache_induction(chk)
     return "case = TLC-emitted call history x dimension x precision replayed into the real objects; random marker sets with the laws on the code's arrays"
